@@ -4,11 +4,11 @@ package main
 
 import (
 	"fmt"
-	"sort"
-	"sync"
 	"go/token"
 	"go/types"
+	"sort"
 	"strings"
+	"sync"
 
 	"golang.org/x/tools/go/ssa"
 )
@@ -494,6 +494,9 @@ func (s *sx) slice(f *frame, x *ssa.Slice) SV {
 		} else {
 			r.Len = nil
 		}
+		if base.Path != "" && base.Buf == nil && r.Len != nil {
+			s.rlog = append(s.rlog, readEvent{kind: "slice", path: base.Path, off: r.Off, ln: *r.Len, pos: s.p.Pos(x.Pos())})
+		}
 		if base.Whole && x.Low == nil && x.High == nil {
 			r.Whole = true
 			r.Len = nil
@@ -570,6 +573,9 @@ func (s *sx) doCall(f *frame, x *ssa.Call) SV {
 		s.bufStore(args[1], linC(2), "u16", args[2])
 		return SV{}
 	case "encoding/binary.littleEndian.Uint32":
+		if a := args[1]; a.K == kBytes && a.Path != "" && a.Buf == nil {
+			s.rlog = append(s.rlog, readEvent{kind: "u32", path: a.Path, off: a.Off, pos: pos})
+		}
 		return svInt(linA("u32(" + contentID(args[1]) + ")"))
 	case "encoding/binary.littleEndian.Uint16":
 		return svInt(linA("u16(" + contentID(args[1]) + ")"))
@@ -722,6 +728,7 @@ type sxRun struct {
 	results []SV
 	err     bool // the function returned a non-nil error (or panicked): a rejecting run
 	notes   map[string]bool
+	facts   []loopFact
 }
 
 type sxOutcome struct {
@@ -781,7 +788,7 @@ func sxExplore(p *Program, fn *ssa.Function, mkArgs func(s *sx) []SV, maxRuns in
 		if split != nil || und != nil {
 			return
 		}
-		r := sxRun{assume: j.assume, order: j.order, stream: s.stream, results: results, notes: s.notes}
+		r := sxRun{assume: j.assume, order: j.order, stream: s.stream, results: results, notes: s.notes, facts: s.facts}
 		if isErr {
 			r.err = true
 		} else if n := len(results); n > 0 && results[n-1].K == kErr && !results[n-1].Nil {
